@@ -181,3 +181,19 @@ func init() {
 		ProviderKind{Name: "PZ3", NoName: true, New: func(b *Beh) any { return &PZ3{} }},
 	)
 }
+
+// PNE: by-name points declared in an embedded struct whose TYPE NAME is unexported.
+type pneBase struct {
+	Buddy IA  `wire:"n1,required=false"`
+	Any   any `wire:"n2,required=false"`
+}
+type PNE struct {
+	QCore
+	pneBase
+}
+
+func (*PNE) isA() {}
+
+func init() {
+	ProviderKinds = append(ProviderKinds, ProviderKind{Name: "PNE", HasQual: true, New: func(b *Beh) any { c := &PNE{QCore: QCore{PCore{b}}}; b.Self = c; return c }})
+}
